@@ -610,3 +610,60 @@ pub fn c08_flatten() -> i32 {
     }
     report(found, tried)
 }
+
+// ---------------------------------------------------------------------------------------------
+// C10 / U-PATHS: compact and bit-sequence types with and without the configured paths, directly and nested, through
+// TypeGenerator::resolve_type_path / resolve_field_type_path (public API); error kinds and the path used are compared
+pub fn c10_paths() -> i32 {
+    use scale_typegen::typegen::ir::ToTokensWithSettings;
+    panic::set_hook(Box::new(|_| {}));
+    // ids: 0 u8, 1 Compact<u8>, 2 BitSequence<store u8, order 3>, 3 m::Lsb0, 4 Vec<Compact<u8>>, 5 [BitSequence; 2], 6 (u8, Compact<u8>), 7 m::S { a: Compact<u8> }, 8 u16
+    let reg = registry(vec![
+        ty("", vec![], prim(TypeDefPrimitive::U8)), ty("", vec![], compact(0)), ty("", vec![], bitseq(0, 3)), ty("m::Lsb0", vec![], composite(vec![])),
+        ty("", vec![], seq(1)), ty("", vec![], arr(2, 2)), ty("", vec![], tuple(vec![0, 1])), ty("m::S", vec![], composite(vec![field(Some("a"), 1, Some("Compact<u8>"))])),
+        ty("", vec![], prim(TypeDefPrimitive::U16)),
+    ]);
+    // which ids need which path (transitively, for path resolution): compact: 1 4 6; bits: 2 5
+    let needs_compact = [1u32, 4, 6];
+    let needs_bits = [2u32, 5];
+    let mut tried = 0;
+    let mut found = None;
+    'o: for cfg in 0..4u32 {
+        let mut settings = TypeGeneratorSettings::default();
+        settings.compact_type_path = if cfg & 1 != 0 { Some(syn::parse_quote!(::my::Cpt)) } else { None };
+        settings.decoded_bits_type_path = if cfg & 2 != 0 { Some(syn::parse_quote!(::my::Bits)) } else { None };
+        let gen = TypeGenerator::new(&reg, &settings);
+        for id in 0..reg.types.len() as u32 {
+            for as_field in [false, true] {
+                tried += 1;
+                let r = panic::catch_unwind(panic::AssertUnwindSafe(|| if as_field { gen.resolve_field_type_path(id, &[], None) } else { gen.resolve_type_path(id) }));
+                let want_c = needs_compact.contains(&id) && cfg & 1 == 0;
+                let want_b = needs_bits.contains(&id) && cfg & 2 == 0;
+                let why = match r {
+                    Err(_) => Some("panic".to_string()),
+                    Ok(Err(TypegenError::CompactPathNone)) => if want_c { None } else { Some("CompactPathNone although no compact path is needed or one is configured".into()) },
+                    Ok(Err(TypegenError::DecodedBitsPathNone)) => if want_b { None } else { Some("DecodedBitsPathNone although no bits path is needed or one is configured".into()) },
+                    Ok(Err(e)) => Some(format!("unexpected error {e}")),
+                    Ok(Ok(p)) => {
+                        if want_c { Some("resolved although the compact path is not configured".into()) }
+                        else if want_b { Some("resolved although the decoded-bits path is not configured".into()) }
+                        else {
+                            let s = p.to_token_stream(&settings).to_string().replace(' ', "");
+                            let uses_c = s.contains("::my::Cpt"); let uses_b = s.contains("::my::Bits");
+                            // a compact that is resolved as a FIELD is written as its inner type (the attribute carries the compactness)
+                            let expect_c = needs_compact.contains(&id) && !(as_field && id == 1);
+                            if uses_c != expect_c { Some(format!("resolved to `{s}`: configured compact path {}", if expect_c { "missing" } else { "used unexpectedly" })) }
+                            else if uses_b != needs_bits.contains(&id) { Some(format!("resolved to `{s}`: configured decoded-bits path {}", if uses_b { "used unexpectedly" } else { "missing" })) }
+                            else if id == 0 && s != "::core::primitive::u8" { Some(format!("u8 resolved to `{s}`")) }
+                            else if id == 8 && s != "::core::primitive::u16" { Some(format!("u16 resolved to `{s}`")) }
+                            else { None }
+                        }
+                    }
+                };
+                if let Some(w) = why { found = Some((format!("{}({id}) with compact path {} and decoded-bits path {} (ids: 0 u8, 1 Compact<u8>, 2 BitSequence, 3 m::Lsb0, 4 Vec<Compact<u8>>, 5 [BitSequence; 2], 6 (u8, Compact<u8>), 7 m::S, 8 u16)",
+                    if as_field { "resolve_field_type_path" } else { "resolve_type_path" }, if cfg & 1 != 0 { "set" } else { "unset" }, if cfg & 2 != 0 { "set" } else { "unset" }), w)); break 'o; }
+            }
+        }
+    }
+    report(found, tried)
+}
